@@ -2,6 +2,7 @@ package props
 
 import (
 	"fmt"
+	"os"
 	"strings"
 	"testing"
 
@@ -144,7 +145,7 @@ func buildC18(n int, iss []int, variant int) World {
 func TestC18(t *testing.T) {
 	r := core.Start(t, "C18")
 	defer r.Finish()
-	r.Rule = "(a) exhaustive: every issuer function on n <= 3 (quick) / n <= 5 (thorough) labelled entities, each entity having no issuer, any entity including itself, or an undefined name ((n+2)^n graphs), laid out over nested directories with config suffixes in mixed letter case and explicit or file-derived aliases (two layout variants per graph). (b) sampled: up to 6 entities with alias collisions (explicit/explicit, explicit/file name, file name/file name in different directories, same stem with different suffix in one directory), cycles hanging off valid trees, and bystander files (other suffixes, binary junk / lists / version-less YAML under config suffixes, stray PEM). explicit aliases containing blanks, slashes, dots and '../' (two aliases with the same last path element are distinct; the bare last element names nobody; so are aliases and issuer names that differ in a leading or trailing blank); leftover artifacts consisting of a cut-off or non-base64 hash line. Backends: in-memory, gopki MapFs, NativeFs (there also with some configs being symbolic links to files kept outside the directory). Oracle: graph analysis in the harness (duplicate alias, dangling issuer, cycle incl. self-loop) => the run must fail and the directory snapshot is unchanged; otherwise the run succeeds, exactly the files '<config path without extension>.pem' appear, issuer DNs match the configured issuer's subject, everything else is byte-identical. Non-trivial = defect hanging off an otherwise valid tree, or a valid forest spread over >= 2 directories; distinct by rendered tree."
+	r.Rule = "(a) exhaustive: every issuer function on n <= 3 (quick) / n <= 5 (thorough) labelled entities, each entity having no issuer, any entity including itself, or an undefined name ((n+2)^n graphs), laid out over nested directories with config suffixes in mixed letter case and explicit or file-derived aliases (two layout variants per graph). (b) sampled: up to 6 entities with alias collisions (explicit/explicit, explicit/file name, file name/file name in different directories, same stem with different suffix in one directory), cycles hanging off valid trees, and bystander files (other suffixes, binary junk / lists / version-less YAML under config suffixes, stray PEM). explicit aliases containing blanks, slashes, dots and '../' (two aliases with the same last path element are distinct; the bare last element names nobody; so are aliases and issuer names that differ in a leading or trailing blank); leftover artifacts consisting of a cut-off or non-base64 hash line; files named after an artifact or configuration and lying next to it (<artifact>.tmp / ~ / .bak / .new / .lock / .old, .<artifact>.swp, <stem>.tmp, <stem>.crt, <config>.tmp). (c) the built command line on a native directory with a defective hierarchy and every spelling of the five flags, including all of them switched off, with and without artifacts of an earlier run: the command must exit non-zero and change nothing. Backends: in-memory, gopki MapFs, NativeFs (there also with some configs being symbolic links to files kept outside the directory). Oracle: graph analysis in the harness (duplicate alias, dangling issuer, cycle incl. self-loop) => the run must fail and the directory snapshot is unchanged; otherwise the run succeeds, exactly the files '<config path without extension>.pem' appear, issuer DNs match the configured issuer's subject, everything else is byte-identical. Non-trivial = defect hanging off an otherwise valid tree, or a valid forest spread over >= 2 directories; distinct by rendered tree."
 	r.Assumptions = []string{"two configs with the same stem in one directory but different explicit aliases are not generated (both map to one .pem; the property does not say who wins)"}
 	wrap := func(c c18Case) *core.Failure {
 		f, class := checkC18(c)
@@ -332,8 +333,189 @@ func TestC18(t *testing.T) {
 				c.W.Files[bs.path] = []byte(bs.data)
 			}
 		}
+		for i := range w.Ents {
+			// files that merely sit next to an artifact or a configuration and are named after it (editor backups, leftovers of
+			// other tools, lock and temporary files): not configurations, so never modified, replaced or removed
+			if rapid.IntRange(0, 3).Draw(t, fmt.Sprintf("nb%d", i)) == 0 {
+				c.W.Files[c18Neighbour(w.Ents[i].File, rapid.IntRange(0, 11).Draw(t, fmt.Sprintf("nbk%d", i)))] = []byte("a neighbour of an artifact, not a configuration\n")
+			}
+		}
 		_ = stubs
 		return c
 	}
 	core.Rapid(r, "graph", r.Pick(1500, 300000), gen, wrap)
+
+	// the same refusal at the command line, whatever the flags say: a defective hierarchy makes the command fail and nothing is written
+	wrapCLI := func(c c18CLI) *core.Failure {
+		f, class := checkC18CLI(c)
+		r.Case("", "cli:"+class, fmt.Sprintf("cli-flags:%05b", c.Flags))
+		r.Sample("cli:"+class, map[string]any{"configs": c.W.Texts(), "args": c.Args})
+		return f
+	}
+	core.Register(r, "cli", wrapCLI)
+	genCLI := func(t *rapid.T) c18CLI {
+		n := rapid.IntRange(1, 4).Draw(t, "n")
+		iss := make([]int, n)
+		for i := range iss {
+			iss[i] = -1
+			if i > 0 && rapid.Bool().Draw(t, fmt.Sprintf("hasiss%d", i)) {
+				iss[i] = rapid.IntRange(0, i-1).Draw(t, fmt.Sprintf("iss%d", i))
+			}
+		}
+		switch rapid.IntRange(0, 3).Draw(t, "defect") {
+		case 0:
+			iss[rapid.IntRange(0, n-1).Draw(t, "self")] = rapid.IntRange(0, n-1).Draw(t, "to") // self-loop, cycle, or (rarely) a valid edge
+			if a := rapid.IntRange(0, n-1).Draw(t, "self2"); true {
+				iss[a] = a
+			}
+		case 1:
+			iss[rapid.IntRange(0, n-1).Draw(t, "dang")] = n + 1
+		}
+		c := c18CLI{W: buildC18(n, iss, rapid.IntRange(0, 20).Draw(t, "variant"))}
+		if n >= 2 && rapid.IntRange(0, 3).Draw(t, "dup") == 0 {
+			c.W.Ents[0].Alias, c.W.Ents[1].Alias = "shared alias", "shared alias"
+			for i := range c.W.Ents {
+				if iss[i] >= 0 && iss[i] < n {
+					c.W.Ents[i].Issuer = c.W.Ents[iss[i]].EffAlias()
+				}
+			}
+		}
+		for _, f := range []struct {
+			bit         int
+			short, long string
+			def         bool
+		}{{core.FlagMissing, "-m", "--generate-missing", true}, {core.FlagChanged, "-c", "--generate-changed", true},
+			{core.FlagNewer, "-o", "--generate-outdated", false}, {core.FlagExpired, "-e", "--generate-expired", false}, {core.FlagAll, "-a", "--generate-all", false}} {
+			val := f.def
+			switch rapid.IntRange(0, 3).Draw(t, "sp"+f.short) {
+			case 0:
+			case 1:
+				c.Args = append(c.Args, f.short)
+				val = true
+			case 2:
+				c.Args = append(c.Args, f.short+"=false")
+				val = false
+			default:
+				val = rapid.Bool().Draw(t, "v"+f.short)
+				c.Args = append(c.Args, fmt.Sprintf("%s=%v", f.long, val))
+			}
+			if val {
+				c.Flags |= f.bit
+			}
+		}
+		if rapid.IntRange(0, 4).Draw(t, "all-off") == 0 {
+			// every reason switched off: there is nothing to generate, but a defective hierarchy is still refused
+			c.Flags = 0
+			c.Args = [][]string{{"-m=false", "-c=false"}, {"--generate-missing=false", "--generate-changed=false", "-a=false"}, {"-c=false", "-m=false", "-o=false", "-e=false"}}[rapid.IntRange(0, 2).Draw(t, "all-off-spelling")]
+		}
+		c.Populate = rapid.Bool().Draw(t, "populate")
+		return c
+	}
+	core.Rapid(r, "cli", r.Pick(64, 4000), genCLI, wrapCLI)
+}
+
+// c18Neighbour names a file next to the artifact / configuration of an entity.
+func c18Neighbour(cfg string, k int) string {
+	pem := core.PemPath(cfg)
+	dir, base := "", pem
+	if i := strings.LastIndex(pem, "/"); i >= 0 {
+		dir, base = pem[:i+1], pem[i+1:]
+	}
+	switch k {
+	case 0:
+		return pem + ".tmp"
+	case 1:
+		return pem + "~"
+	case 2:
+		return pem + ".bak"
+	case 3:
+		return pem + ".new"
+	case 4:
+		return pem + ".lock"
+	case 5:
+		return dir + "." + base + ".swp"
+	case 6:
+		return dir + "." + base + ".tmp"
+	case 7:
+		return strings.TrimSuffix(pem, ".pem") + ".tmp"
+	case 8:
+		return cfg + ".tmp"
+	case 9:
+		return cfg + "~"
+	case 10:
+		return pem + ".old"
+	}
+	return strings.TrimSuffix(pem, ".pem") + ".crt"
+}
+
+// c18CLI: the built command on a native directory.
+type c18CLI struct {
+	W        World
+	Args     []string
+	Flags    int
+	Populate bool // artifacts of the valid part exist already (made by a library run over the entities without defect), so there is something to replace
+}
+
+func checkC18CLI(c c18CLI) (*core.Failure, string) {
+	w := &c.W
+	defect := c18Analyse(w)
+	if defect == "" {
+		return nil, "valid-skipped" // consent, flag mapping and rerun behaviour of valid directories belong to C10
+	}
+	d := w.Dir()
+	if c.Populate {
+		// what an earlier run over the then-valid part left behind: run the library over the root entities only
+		var ok World
+		for i := range w.Ents {
+			if w.Ents[i].Issuer == "" {
+				ok.Ents = append(ok.Ents, w.Ents[i])
+			}
+		}
+		seen := map[string]bool{}
+		for i := range ok.Ents {
+			if seen[ok.Ents[i].EffAlias()] {
+				ok.Ents = nil
+				break
+			}
+			seen[ok.Ents[i].EffAlias()] = true
+		}
+		if len(ok.Ents) > 0 {
+			od := ok.Dir()
+			if res := core.Run(od, core.FlagDefault); res.OK() {
+				for p, fr := range od.Files {
+					if strings.HasSuffix(p, ".pem") {
+						d.Put(p, fr.Data)
+					}
+				}
+			}
+		}
+	}
+	root, err := os.MkdirTemp("", "gopki-c18cli-")
+	if err != nil {
+		return nil, "harness-io"
+	}
+	defer os.RemoveAll(root)
+	d.Tick(10)
+	if err := d.Materialise(root); err != nil {
+		return nil, "harness-io"
+	}
+	out, code, err := runCLI(root, c.Args, "y\n")
+	if err != nil {
+		return nil, "harness-io"
+	}
+	changed, err := d.Absorb(root)
+	if err != nil {
+		return nil, "harness-io"
+	}
+	desc := fmt.Sprintf("args=%v exit=%d changed=%v\noutput: %s\n%v", c.Args, code, changed, out, w.Texts())
+	if strings.Contains(out, "panic:") || strings.Contains(out, "goroutine ") {
+		return core.Failf("C18/cli-panic", "CLI crashed: %s", desc), defect
+	}
+	if len(changed) > 0 {
+		return core.Failf("C18/"+defect+"/cli-files-written", "the hierarchy has a %s, yet the command changed files: %s", defect, desc), defect
+	}
+	if code == 0 {
+		return core.Failf("C18/"+defect+"/cli-accepted", "the hierarchy has a %s, yet the command reports success: %s", defect, desc), defect
+	}
+	return nil, defect
 }
